@@ -64,10 +64,12 @@ def spec_function(ex, name: str, st):
             view.store[p] = elem_val(k, z)
     saved = getattr(ex, "spec_mode", False)
     ex.spec_mode = True
+    ex.in_recdef = getattr(ex, "in_recdef", 0) + 1  # the body of a recursive definition is a term over its parameters: operations are written natively (no side facts)
     try:
         body = pure_block(ex, fdef.body, view)
     finally:
         ex.spec_mode = saved
+        ex.in_recdef -= 1
     if body.kind != ret and not (ret == "ref" and body.kind == "ref"):
         raise Unsupported(f"spec {name}: body has kind {body.kind}, declared {ret}")
     z3.RecAddDefinition(f, zargs, body.z)
